@@ -1,0 +1,45 @@
+//          Copyright Carl Philipp Reh 2009 - 2021.
+// Distributed under the Boost Software License, Version 1.0.
+//    (See accompanying file LICENSE_1_0.txt or copy at
+//          http://www.boost.org/LICENSE_1_0.txt)
+
+#ifndef FCPPT_LOG_IMPL_VERIF_SCHED_POINT_HPP_INCLUDED
+#define FCPPT_LOG_IMPL_VERIF_SCHED_POINT_HPP_INCLUDED
+
+// Verification hook (add-only). FCPPT_VERIF_SCHED_POINT(site) marks a place inside fcppt.log
+// where a test harness may inject a yield or a short delay into the calling thread: directly
+// before the context's mutex is acquired and directly before a node's atomic level is read or
+// written. Unless FREUNDLICH_FCPPT_VERIF is defined the macro expands to nothing, so a normal
+// build is unchanged. With the guard defined it calls fcppt_verif_sched_point(site) if, and only
+// if, the program defines that function; the declaration is weak, so programs that do not define
+// it still link and the call is skipped.
+//
+// The macro forms a complete statement; it is used without a trailing semicolon.
+//
+// Sites:
+//   1 context::set            before the lock
+//   2 context::get            before the lock
+//   3 context::find_location  before the lock
+//   4 context::find_child     before the lock
+//   5 context_tree_node::level() const               before the atomic load
+//   6 context_tree_node::level(optional_level const&) before the atomic store
+
+#if defined(FREUNDLICH_FCPPT_VERIF)
+
+extern "C" void fcppt_verif_sched_point(int site) __attribute__((weak));
+
+#define FCPPT_VERIF_SCHED_POINT(site) \
+  { \
+    if (fcppt_verif_sched_point != nullptr) \
+    { \
+      fcppt_verif_sched_point(site); \
+    } \
+  }
+
+#else
+
+#define FCPPT_VERIF_SCHED_POINT(site)
+
+#endif
+
+#endif
